@@ -144,9 +144,11 @@ def run(cfg, R):
                 r2 = list(res2)
                 for q in range(sel):
                     rq = pick(r2, sel_idx[q])
+                    cs = []
                     for j in range(nc):
                         in_sel = tm.disj([eq(s_, const(j, "Int")) for s_ in sel_idx])
-                        G.append((f"{key_}: added point {q} has a squared residual >= that of unselected candidate {j}", bor(in_sel, le(r2[j], rq))))
+                        cs.append(bor(in_sel, le(r2[j], rq)))
+                    G.append((f"{key_}: added point {q} has a squared residual >= that of every unselected candidate", tm.conj(cs)))
             else:
                 # product domain: the added coordinates are those of the top pairs (largest squared residual), in order
                 ax = 0 if key_ == "times" else 1
@@ -161,6 +163,7 @@ def run(cfg, R):
                         row_added = tm.disj([eq(s_, const(i, "Int")) for s_ in sel_idx])
                         for j in range(r2.shape[1 - ax]):
                             pair = r2[i, j] if ax == 0 else r2[j, i]
+                            # (one query per pair: the conjunction over a candidate's pairs was left undecided by the solver)
                             G.append((f"{key_}: added coordinate {q} carries a pair with squared residual >= pair ({i},{j}) unless that pair's {key_} coordinate was added too",
                                       bor(row_added, tm.disj([le(pair, b_) for b_ in best_on_line]))))
             # candidates lie in the domain
